@@ -11,12 +11,13 @@ git diff > $out/patch.check.diff
 scratch=$(mktemp -d /var/tmp/confirm-XXXX)
 git -C /repo worktree add -q --detach $scratch/clean HEAD || exit 2
 (cd $scratch/clean && go build -o $scratch/convergen.orig . ) || { echo "orig build failed"; exit 2; }
-# the demo gets the binary and, as second argument, the source tree it was built from
-demo_orig=$( (cd $out/demo && bash ./run.sh $scratch/convergen.orig $scratch/clean) >/dev/null 2>&1; echo $?)
+# the demo gets the binary and - if it asks for a second argument - the source tree it was built from
+tree=""; grep -q '\$2' $out/demo/run.sh && tree=$scratch/clean
+demo_orig=$( (cd $out/demo && bash ./run.sh $scratch/convergen.orig $tree) >/dev/null 2>&1; echo $?)
 (cd $scratch/clean && git apply $out/patch.diff && go build -o $scratch/convergen.mut . ) || { echo "patch does not apply/build on /repo HEAD"; git -C /repo worktree remove --force $scratch/clean; exit 2; }
 tests=$(cd $scratch/clean && go test -count=1 ./... 2>&1 | grep -v "no test files")
 if echo "$tests" | grep -q "^FAIL\|^---"; then testres="FAIL"; else testres="pass"; fi
-demo_mut=$( (cd $out/demo && bash ./run.sh $scratch/convergen.mut $scratch/clean) >/dev/null 2>&1; echo $?)
+demo_mut=$( (cd $out/demo && bash ./run.sh $scratch/convergen.mut $tree) >/dev/null 2>&1; echo $?)
 git -C /repo worktree remove --force $scratch/clean; rm -rf $scratch
 echo "tests_with_change=$testres demo_on_unchanged=$demo_orig demo_on_changed=$demo_mut"
 if [ "$testres" = pass ] && [ "$demo_orig" = 0 ] && [ "$demo_mut" != 0 ]; then
